@@ -5,6 +5,7 @@ package sx
 
 import (
 	"fmt"
+	"go/token"
 	"go/types"
 	"math"
 	"reflect"
@@ -132,6 +133,28 @@ func init() {
 
 		"github.com/mitchellh/mapstructure.WeakDecode": ext۰mapstructure۰WeakDecode,
 
+		"internal/abi.NoEscape":            func(fr *frame, a []value) value { return a[0] },
+		"(*strings.Builder).copyCheck":     func(fr *frame, a []value) value { return nil },
+		"(*strings.Builder).String":        ext۰strings۰Builder۰String,
+		"(*sync.Mutex).Lock":               extSync("Mutex.Lock"),
+		"(*sync.Mutex).Unlock":             extSync("Mutex.Unlock"),
+		"(*sync.Mutex).TryLock":            func(fr *frame, a []value) value { extSync("Mutex.TryLock")(fr, a); return true },
+		"(*sync.RWMutex).Lock":             extSync("RWMutex.Lock"),
+		"(*sync.RWMutex).Unlock":           extSync("RWMutex.Unlock"),
+		"(*sync.RWMutex).RLock":            extSync("RWMutex.RLock"),
+		"(*sync.RWMutex).RUnlock":          extSync("RWMutex.RUnlock"),
+		"(*sync.Once).Do":                  ext۰sync۰Once۰Do,
+		"(*sync.Map).Load":                 ext۰sync۰Map۰Load,
+		"(*sync.Map).Store":                ext۰sync۰Map۰Store,
+		"(*sync.Map).LoadOrStore":          ext۰sync۰Map۰LoadOrStore,
+		"(*sync.Map).Delete":               ext۰sync۰Map۰Delete,
+		"(*sync.Pool).Get":                 ext۰sync۰Pool۰Get,
+		"(*sync.Pool).Put":                 func(fr *frame, a []value) value { extSync("Pool.Put")(fr, a); return nil },
+		"(*sync/atomic.Value).Load":        ext۰atomic۰Value۰Load,
+		"(*sync/atomic.Value).Store":       ext۰atomic۰Value۰Store,
+		"sort.Slice":                       ext۰sort۰Slice,
+		"sort.SliceStable":                 ext۰sort۰Slice,
+		"sort.Ints":                        ext۰sort۰Ints,
 		"os.Exit": func(fr *frame, a []value) value { panic(abortPath{"inconclusive", "os.Exit"}) },
 	} {
 		externals[k] = v
@@ -570,3 +593,175 @@ func ext۰reflect۰StructTag۰Get(fr *frame, args []value) value {
 }
 
 var _ = utf8.RuneError
+
+func ext۰strings۰Builder۰String(fr *frame, args []value) value {
+	b := (*args[0].(*value)).(structure)
+	buf, _ := b[1].([]value)
+	return mkStr(buf)
+}
+
+// ---- sync: operations are recorded as synchronisation events (C12) and
+// otherwise behave as in a single goroutine.
+
+func extSync(what string) externalFn {
+	return func(fr *frame, a []value) value {
+		fr.i.ps.events = append(fr.i.ps.events, "sync:"+what)
+		return nil
+	}
+}
+
+func ext۰sync۰Once۰Do(fr *frame, args []value) value {
+	fr.i.ps.events = append(fr.i.ps.events, "sync:Once.Do")
+	cell := args[0].(*value)
+	o := (*cell).(structure) // {done atomic.Uint32 / uint32; m Mutex}
+	doneCell := &o[0]
+	isDone := false
+	switch d := (*doneCell).(type) {
+	case structure: // atomic.Uint32{_ noCopy; v uint32}
+		isDone = d[len(d)-1].(uint32) != 0
+		if !isDone {
+			d[len(d)-1] = uint32(1)
+		}
+	case uint32:
+		isDone = d != 0
+		if !isDone {
+			*doneCell = uint32(1)
+		}
+	}
+	if !isDone {
+		if fr.i.mon != nil {
+			fr.i.mon.onStore2(fr, cell, "sync.Once")
+		}
+		call(fr.i, fr, 0, args[1], nil)
+	}
+	return nil
+}
+
+// sync.Map model: the map lives in a side table keyed by the Map's cell.
+func (i *interpreter) syncMap(cell *value) *smap {
+	if i.ps.syncMaps == nil {
+		i.ps.syncMaps = map[*value]*smap{}
+	}
+	m, ok := i.ps.syncMaps[cell]
+	if !ok {
+		m = &smap{kt: types.NewInterfaceType(nil, nil), idx: map[value]int{}}
+		i.ps.syncMaps[cell] = m
+	}
+	return m
+}
+
+func ext۰sync۰Map۰Load(fr *frame, args []value) value {
+	fr.i.ps.events = append(fr.i.ps.events, "sync:Map.Load")
+	v, ok := fr.i.syncMap(args[0].(*value)).lookup(fr.i, args[1])
+	if !ok {
+		return tuple{iface{}, false}
+	}
+	return tuple{v, true}
+}
+
+func ext۰sync۰Map۰Store(fr *frame, args []value) value {
+	fr.i.ps.events = append(fr.i.ps.events, "sync:Map.Store")
+	if fr.i.mon != nil {
+		fr.i.mon.onStore2(fr, args[0].(*value), "sync.Map")
+	}
+	fr.i.syncMap(args[0].(*value)).insert(fr.i, args[1], args[2])
+	return nil
+}
+
+func ext۰sync۰Map۰LoadOrStore(fr *frame, args []value) value {
+	fr.i.ps.events = append(fr.i.ps.events, "sync:Map.LoadOrStore")
+	m := fr.i.syncMap(args[0].(*value))
+	if v, ok := m.lookup(fr.i, args[1]); ok {
+		return tuple{v, true}
+	}
+	if fr.i.mon != nil {
+		fr.i.mon.onStore2(fr, args[0].(*value), "sync.Map")
+	}
+	m.insert(fr.i, args[1], args[2])
+	return tuple{args[2], false}
+}
+
+func ext۰sync۰Map۰Delete(fr *frame, args []value) value {
+	fr.i.ps.events = append(fr.i.ps.events, "sync:Map.Delete")
+	if fr.i.mon != nil {
+		fr.i.mon.onStore2(fr, args[0].(*value), "sync.Map")
+	}
+	fr.i.syncMap(args[0].(*value)).delete(fr.i, args[1])
+	return nil
+}
+
+func ext۰sync۰Pool۰Get(fr *frame, args []value) value {
+	fr.i.ps.events = append(fr.i.ps.events, "sync:Pool.Get")
+	p := (*args[0].(*value)).(structure)
+	newFn := p[len(p)-1] // New func() any is the last field
+	switch f := newFn.(type) {
+	case *ssa.Function:
+		if f == nil {
+			return iface{}
+		}
+	case nil:
+		return iface{}
+	}
+	return call(fr.i, fr, 0, newFn, nil)
+}
+
+func ext۰atomic۰Value۰Load(fr *frame, args []value) value {
+	fr.i.ps.events = append(fr.i.ps.events, "sync:atomic.Value.Load")
+	v := (*args[0].(*value)).(structure)[0]
+	if v == nil {
+		return iface{}
+	}
+	return v
+}
+
+func ext۰atomic۰Value۰Store(fr *frame, args []value) value {
+	fr.i.ps.events = append(fr.i.ps.events, "sync:atomic.Value.Store")
+	if fr.i.mon != nil {
+		fr.i.mon.onStore2(fr, args[0].(*value), "atomic.Value")
+	}
+	(*args[0].(*value)).(structure)[0] = args[1]
+	return nil
+}
+
+func ext۰sort۰Slice(fr *frame, args []value) value {
+	x := args[0].(iface).v.([]value)
+	less := args[1]
+	for a := 1; a < len(x); a++ {
+		for b := a; b > 0; b-- {
+			r := call(fr.i, fr, 0, less, []value{b, b - 1})
+			lt := false
+			switch r := r.(type) {
+			case bool:
+				lt = r
+			case *Sym:
+				lt = fr.i.decide(r.T, "sort.Slice")
+			}
+			if !lt {
+				break
+			}
+			x[b], x[b-1] = x[b-1], x[b]
+		}
+	}
+	return nil
+}
+
+func ext۰sort۰Ints(fr *frame, args []value) value {
+	x := args[0].([]value)
+	for a := 1; a < len(x); a++ {
+		for b := a; b > 0; b-- {
+			r := binopS(fr.i, token.LSS, nil, x[b], x[b-1])
+			lt := false
+			switch r := r.(type) {
+			case bool:
+				lt = r
+			case *Sym:
+				lt = fr.i.decide(r.T, "sort.Ints")
+			}
+			if !lt {
+				break
+			}
+			x[b], x[b-1] = x[b-1], x[b]
+		}
+	}
+	return nil
+}
